@@ -29,7 +29,7 @@ m = {
         "guard": "cargo feature verif-hooks of pasfmt-core (off by default; every hook item is #[cfg(feature = \"verif-hooks\")])",
         "enable": "the harness crate depends on pasfmt-core with features = [\"verif-hooks\"] (harness/Cargo.toml.in); by hand: cargo build -p pasfmt-core --features verif-hooks",
         "baseline_off_cmd": "cd /repo && cargo test --workspace --no-fail-fast --offline",
-        "source_commits": ["71ebd92", "c8d375b", "faf1412", "a933d4f"],
+        "source_commits": ["71ebd92", "c8d375b", "faf1412", "a933d4f", "85a3a03"],
         "add_only": True,
     },
     "engines": [{"name": "coq-model+correspondence", "path": "/verif/coq, /verif/harness, /verif/driver, /verif/tools",
